@@ -3,6 +3,7 @@
 package config
 
 import (
+	"encoding/json"
 	"bytes"
 	"encoding/base64"
 	"fmt"
@@ -322,6 +323,10 @@ type prsParserRes struct {
 
 type prsParserOut struct {
 	Results []prsParserRes `json:"results"`
+	// Unstable: indices of inputs whose outcome (class, error text, configuration) differs when ParseData is called on them a second
+	// time at the end of the run, after all the other inputs: the answer may depend on the bytes only, not on what was parsed before
+	Unstable []int `json:"unstable"`
+	Rerun    int   `json:"rerun"`
 }
 
 type prsCallRes struct {
@@ -414,6 +419,37 @@ func verifParser(t *testing.T) {
 		})
 		out.Results = append(out.Results, prsParserRes{Class: impl.class, Err: prsCut(impl.msg), Cfg: impl.cfg,
 			DecClass: orac.class, DecErr: prsCut(orac.msg), Dec: orac.dec})
+	}
+	// second pass over a spread of the inputs (every k-th, at most 4000): same bytes, same answer
+	out.Unstable = []int{}
+	step := len(in.Inputs)/4000 + 1
+	for i := 0; i < len(in.Inputs); i += step {
+		first := out.Results[i]
+		if first.Class == "hang" || first.Class == "panic" {
+			continue
+		}
+		data, _ := base64.StdEncoding.DecodeString(in.Inputs[i])
+		again := prsUnderWatchdog(wd, func() prsCallRes {
+			c, err := ParseData(append([]byte{}, data...))
+			if err != nil {
+				return prsCallRes{class: "error", msg: err.Error()}
+			}
+			r := prsCallRes{class: "ok"}
+			if in.WantConfig {
+				r.cfg = prsCanonConfig(c)
+			}
+			return r
+		})
+		out.Rerun++
+		same := again.class == first.Class // (the error TEXT may differ: which of several errors is reported follows Go's map iteration order)
+		if same && in.WantConfig && first.Cfg != nil && again.cfg != nil {
+			a, _ := json.Marshal(first.Cfg)
+			b, _ := json.Marshal(again.cfg)
+			same = string(a) == string(b)
+		}
+		if !same {
+			out.Unstable = append(out.Unstable, i)
+		}
 	}
 	if progress != nil {
 		progress.Close()
